@@ -316,6 +316,35 @@ impl PersistWal {
         Ok(())
     }
 
+    /// Remove from the WAL exactly the entries of `shard_name` that a flush has just written
+    /// to a batch. An entry of the same shard that is NOT in `flushed` stays: it belongs to an
+    /// append that has logged its update but not yet put it into the shard's buffer, so the
+    /// batch does not contain it and the WAL is its only durable copy.
+    pub fn remove_flushed_entries(
+        &mut self,
+        shard_name: &str,
+        flushed: &[Update],
+    ) -> StorageResult<()> {
+        let entries = self.read_all()?;
+        let mut remaining: Vec<&Update> = flushed.iter().collect();
+        let surviving: Vec<WalEntry> = entries
+            .into_iter()
+            .filter(|e| {
+                if e.shard != shard_name {
+                    return true;
+                }
+                match remaining.iter().position(|u| **u == e.update) {
+                    Some(pos) => {
+                        remaining.swap_remove(pos);
+                        false
+                    }
+                    None => true,
+                }
+            })
+            .collect();
+        self.rewrite(&surviving)
+    }
+
     /// True if the WAL file holds anything other than complete, valid, newline-terminated
     /// entries: a torn tail from a crash in the middle of an append, or a corrupt line.
     /// Appending to such a file would glue the next entry onto the damaged line, and that
